@@ -158,7 +158,8 @@ def prog_history(kit, actor, doc, elem, cfg):
     sub = sub_alphabet(rng, model)
     shape = cfg.get('shape') or rng.choice(SHAPES)
     nsteps = cfg.get('nsteps') or rng.randint(3, 14)
-    wts = dict(add=6, add_bad=1.5, add_foreign=0.4, fwd=0.5, remove=2, replace=1, replace_other=0.4,
+    wts = dict(add=6, add_bad=1.5, add_foreign=0.4, add_to_leaf=0.25, readd=0.5, remove_stale=0.25, weird=0.0,
+               fwd=0.5, remove=2, replace=1, replace_other=0.4,
                dot_value=0.7, dot_element=0.6, dot_none=0.6, to_string=1.2, to_string_ic=0.5, check=0.5,
                check_ic=0.2, complete=0.8, read=0.6, attr=0.4, attr_bad=0.2, value_bad=0.2, remove_foreign=0.2,
                deep=0.5)
@@ -252,6 +253,44 @@ def _one_random(kit, actor, doc, root, sub, wts, cfg):
     elif kind == 'add_foreign':
         yield {'op': 'ADD', 'a': actor, 'p': path, 'c': kit.childspec(kit.foreign_name(node), opaque=True),
                'fault': 'rej.wrong_child'}
+    elif kind == 'add_to_leaf':
+        # offer a child to a checked element that cannot have children at all
+        leaves = [n for n in root.walk() if n.xsd_check and spec.model_for_element(n.name) is None]
+        if leaves:
+            lf = rng.choice(leaves)
+            lp = w.path_of(lf)
+            if lp:
+                yield {'op': 'ADD', 'a': actor, 'p': lp, 'c': kit.childspec(rng.choice(spec.ALL_ELEMENTS), opaque=True),
+                       'fault': 'rej.cannot_have_children'}
+        elif node.xsd_check and node.children:
+            # make one: a checked childless child, then offer it a child
+            pass
+    elif kind == 'readd':
+        # re-use a child that was removed / replaced out earlier (same or another parent)
+        det = [k for k, n in enumerate(w.removed) if n.parent is None]
+        if det:
+            yield {'op': 'ADD', 'a': actor, 'p': path, 'reuse': rng.choice(det), 'c': {'name': w.removed[det[0]].name}}
+    elif kind == 'remove_stale':
+        det = [k for k, n in enumerate(w.removed) if n.parent is None]
+        if det:
+            yield {'op': 'REMOVE', 'a': actor, 'p': path, 'i': 0, 'reuse': rng.choice(det), 'fault': 'rej.not_a_child'}
+    elif kind == 'weird':
+        # values / children of uncertain status: only the *type* of any resulting exception is judged (C19)
+        pool = [True, False, 1e-05, [], {}, [1], 10 ** 30, -0.0, '', ' ', None, 'None', 3.0]
+        r = rng.random()
+        if r < 0.35:
+            yield {'op': 'VALUE_SET', 'a': actor, 'p': path, 'value': rng.choice(pool)}
+        elif r < 0.6 and sub:
+            yield {'op': 'DOT_SET', 'a': actor, 'p': path, 'name': rng.choice(sub), 'v': {'kind': 'value', 'value': rng.choice(pool)}}
+        elif r < 0.8:
+            at = kit.valid_attrs(node.name, 1)
+            for k in at:
+                yield {'op': 'ATTR_SET', 'a': actor, 'p': path, 'name': k, 'value': rng.choice(pool)}
+        elif sub:
+            nm = rng.choice(sub)
+            cs = kit.childspec(nm, opaque=False)
+            cs['value'] = rng.choice(pool)
+            yield {'op': 'ADD', 'a': actor, 'p': path, 'c': cs}
     elif kind == 'fwd':
         if sub:
             yield {'op': 'ADD', 'a': actor, 'p': path, 'c': kit.childspec(rng.choice(sub)), 'fwd': rng.randrange(0, 3)}
